@@ -845,3 +845,22 @@ Theorem C03_generated_merge_keeps_every_buffer_bounded :
   forallb (fun L => let '(fa, ma, fb, mb) := L in GenMergeTie.merge_ok fa 12 ma fb 22 mb) GenMergeTie.layouts = true.
 Proof. exact GenMergeTie.generated_merge_keeps_every_buffer_bounded. Qed.
 Print Assumptions C03_generated_merge_keeps_every_buffer_bounded.
+
+(* ================================================================== part 10: row creation without a size bound *)
+From C03 Require GenRawGeneral.
+
+(* the hand model's import_row, EVERY number of columns and EVERY position k of the failing item construction (k >= cols: none fails),
+   observed as (completed, items constructed, items destroyed): a failure at k leaves k constructed and k destroyed - nothing leaked,
+   nothing destroyed twice (a second destroy is Stuck in the machine) - and a complete run constructs cols items and destroys none *)
+Theorem C03_import_row_balance :
+  forall cols k : nat,
+  GenRawTie.l2_obs cols k = if Nat.ltb k cols then (false, Z.of_nat k, Z.of_nat k) else (true, Z.of_nat cols, 0).
+Proof. exact GenRawGeneral.import_row_balance. Qed.
+Print Assumptions C03_import_row_balance.
+
+(* ... and it agrees with the TRANSLATED DataColumnList::pvCreateRaw for every size the translated function accepts (its fuel bound
+   65536; a column list holds at most 2^14 columns) and every failure position: the general form of C03_import_row_refines_generated_bounded *)
+Theorem C03_import_row_refines_generated :
+  forall cols k : nat, Z.of_nat cols <= 65536 -> GenRawTie.l2_obs cols k = GenRawTie.gen_obs cols k.
+Proof. exact GenRawGeneral.import_row_refines_generated. Qed.
+Print Assumptions C03_import_row_refines_generated.
